@@ -117,9 +117,9 @@ func codecCheck(c *chk.Ctx, enforce string) {
 		c.Broken("driver does not build: %s", firstN(bout, 1500))
 	}
 	c.Infof("%d cases (%d outside the accepted / buildable domain), driver built", len(cases), nSkipped)
-	modes := []int{0, 1, 2, 3}
+	modes := []int{0, 1, 2, 3, jsonv.ModeSparse}
 	if c.Thorough() {
-		modes = []int{0, 1, 2, 3, 4, 5, 6, 7, 8, 9, 10, 11, 12, 13, 14, 15}
+		modes = []int{0, 1, 2, 3, 4, 5, 6, 7, 8, 9, 10, 11, 12, 13, 14, 15, jsonv.ModeSparse}
 	}
 	// ---- phase 1: codecs
 	var ops []drv.Op
